@@ -457,6 +457,53 @@ def gen_Tol():
     write("Tol", body, "magpylib/_src/fields/*.py (numeric literals and comparison operators of the ported kernels)")
 
 
+def gen_StyleTemp():
+    """control-flow skeleton of utility.style_temp_edit (the context manager that puts the resolved style on obj._style while
+    show() builds the traces): is the original read before the first assignment, does the `yield` sit in a `try` whose
+    `finally` puts the original back, is anything assigned outside that try?"""
+    import ast
+    import inspect
+    import textwrap
+
+    from magpylib._src import utility
+
+    fn = ast.parse(textwrap.dedent(inspect.getsource(utility.style_temp_edit))).body[0]
+    if not isinstance(fn, ast.FunctionDef):
+        raise Refusal("style_temp_edit is not a plain function")
+    obj = fn.args.args[0].arg
+
+    def assigns_style(node):
+        return [n for n in ast.walk(node) if isinstance(n, ast.Assign) and any(
+            isinstance(t, ast.Attribute) and t.attr == "_style" and isinstance(t.value, ast.Name) and t.value.id == obj for t in n.targets)]
+
+    def is_orig_read(st):
+        return (isinstance(st, ast.Assign) and isinstance(st.value, ast.Call) and getattr(st.value.func, "id", "") == "getattr"
+                and len(st.value.args) >= 2 and getattr(st.value.args[0], "id", None) == obj and getattr(st.value.args[1], "value", None) == "_style")
+
+    body = [st for st in fn.body if not (isinstance(st, ast.Expr) and isinstance(st.value, ast.Constant))]
+    orig_first = bool(body) and is_orig_read(body[0])
+    orig_name = body[0].targets[0].id if orig_first and isinstance(body[0].targets[0], ast.Name) else None
+    tries = [st for st in body if isinstance(st, ast.Try)]
+    yields_outside = [n for st in body if not isinstance(st, ast.Try) for n in ast.walk(st) if isinstance(n, (ast.Yield, ast.YieldFrom))]
+    assigns_outside = [a for st in body[1:] if not isinstance(st, ast.Try) for a in assigns_style(st)]
+    restore = False
+    yield_in_try = False
+    if len(tries) == 1:
+        t = tries[0]
+        yield_in_try = any(isinstance(n, (ast.Yield, ast.YieldFrom)) for st in t.body for n in ast.walk(st))
+        fin = [a for st in t.finalbody for a in assigns_style(st)]
+        restore = len(fin) == 1 and isinstance(fin[0].value, ast.Name) and fin[0].value.id == orig_name and not t.handlers
+    b = lambda x: "true" if x else "false"  # noqa: E731
+    text = ("namespace MagpyVerif.Gen.StyleTemp\n\n"
+            "/-- the first statement reads the object's current `_style` into a local -/\n"
+            f"def origReadFirst : Bool := {b(orig_first)}\n\n"
+            "/-- the single `yield` sits inside a `try` (no `except`) whose `finally` assigns that local back to `obj._style` -/\n"
+            f"def restoreInFinally : Bool := {b(restore and yield_in_try and not yields_outside)}\n\n"
+            "/-- assignments to `obj._style` outside the try (after the read of the original) -/\n"
+            f"def assignsOutsideTry : Nat := {len(assigns_outside)}\n\nend MagpyVerif.Gen.StyleTemp\n")
+    write("StyleTemp", text, "magpylib/_src/utility.py:style_temp_edit (AST)")
+
+
 def gen_KernTrace():
     """concolic trace of the real numpy kernels on one symbolic row per branch (translate/ktrace.py)"""
     import ktrace
@@ -502,7 +549,7 @@ def gen_CylSegGen():
     write("CylSegGen", text, cylseg2lean.REL_SRC)
 
 
-GENERATORS = {"KernTrace": gen_KernTrace, "Const": gen_Const, "Units": gen_Units, "Defaults": gen_Defaults, "Attr": gen_Attr, "PathPad": gen_PathPad, "Exits": gen_Exits, "Ndim": gen_Ndim, "Tol": gen_Tol, "CylSegGen": gen_CylSegGen}
+GENERATORS = {"KernTrace": gen_KernTrace, "StyleTemp": gen_StyleTemp, "Const": gen_Const, "Units": gen_Units, "Defaults": gen_Defaults, "Attr": gen_Attr, "PathPad": gen_PathPad, "Exits": gen_Exits, "Ndim": gen_Ndim, "Tol": gen_Tol, "CylSegGen": gen_CylSegGen}
 
 
 def main():
